@@ -379,6 +379,8 @@ class Stats:
         self.assert_queries = 0
         self.model_queries = 0
         self.fallback_queries = 0
+        self.model_rechecks = 0
+        self.engine_restarts = 0
         self.obligations = 0
         self.discharged = 0
         self.solver_s = 0.0
@@ -405,6 +407,7 @@ class Engine:
         self.solver_timeout_ms = solver_timeout_ms
         self.fallback_timeout_ms = 30000
         self._fresh_model = None
+        self.tainted = False
         self.stats = Stats()
         self.stack = []
         self.scopes = []      # trace positions of the solver scopes
@@ -451,9 +454,13 @@ class Engine:
                 signal.setitimer(signal.ITIMER_REAL, max(left, 0.05))
 
     def _check2(self, assumptions, kind, fallback, t0):
-        r = self.solver.check(*assumptions)
+        if self.tainted and fallback:
+            r = z3.unknown          # the incremental solver timed out before: do not trust it for the rest of this path
+        else:
+            r = self.solver.check(*assumptions)
         self._fresh_model = None
         if r == z3.unknown and fallback:
+            self.tainted = True
             # the incremental solver occasionally gets stuck on small mixed Int/Real
             # problems that a fresh solver decides at once: retry non-incrementally
             self.stats.fallback_queries += 1
@@ -478,6 +485,15 @@ class Engine:
         if self._fresh_model is not None:
             return self._fresh_model
         return self.solver.model()
+
+    def _model_ok(self):
+        try:
+            for a in self.solver.assertions():
+                if not z3.is_true(self.model.eval(a, model_completion=True)):
+                    return False
+        except z3.Z3Exception:
+            return False
+        return True
 
     def _refresh(self):
         """make self.model a model of the current path condition"""
@@ -791,6 +807,29 @@ class Engine:
             elif r == z3.unknown:
                 self.stats.unknown += 1
                 res['flags'].append('unknown-obligation')
+        if viol is not None and not self._model_ok():
+            # defensive: the model must satisfy every asserted constraint of the path (an incremental solver
+            # that was interrupted by a timeout has been seen to hand back a stale model): re-decide from scratch
+            self.stats.model_rechecks += 1
+            s2 = z3.Solver()
+            s2.set('timeout', self.fallback_timeout_ms)
+            s2.add(self.solver.assertions())
+            bad = [z3.Not(c) for (_, c, _) in symb] if not conc_false else []
+            if bad:
+                s2.add(z3.Or(*bad) if len(bad) > 1 else bad[0])
+            r2 = s2.check()
+            if r2 == z3.sat:
+                self.model = s2.model()
+            elif r2 == z3.unsat:
+                viol = None
+                if conc_false:
+                    res['dead'] = True      # the path itself is infeasible
+                    self.stats.infeasible += 1
+                    return res
+            else:
+                viol = None
+                self.stats.unknown += 1
+                res['flags'].append('unknown-obligation')
         if viol is None and 'unknown-obligation' not in res['flags']:
             self.stats.discharged += len(self.asserts)
         if viol is not None:
@@ -881,6 +920,15 @@ def explore(harness, cfg, max_paths=200000, max_seconds=600.0, witness_every=50,
                 out['violations'].append(res['violation'])
         if res['witness'] is not None:
             out['witnesses'].append(res['witness'])
+        if eng.tainted and eng.stack:
+            # an interrupted incremental solver is not reused: continue the remaining sub-trees on a fresh engine
+            old_eng = eng
+            eng = Engine(logic=logic, watchdog_s=watchdog_s)
+            eng.stats = old_eng.stats
+            eng.stats.engine_restarts += 1
+            for pf, _ in old_eng.stack:
+                eng.stack.append((pf, 'SEED'))
+            symx.set_ctx(eng)
     out['pending'] = [[list(e) for e in pf] for pf, _ in eng.stack] if out['exhaustive'] else []
     out['unexplored_prefixes'] = len(eng.stack) if not out['exhaustive'] else 0
     out['stats'] = eng.stats.as_dict()
